@@ -78,6 +78,8 @@ pub fn messages(kind: &str) -> Vec<TlsMessage<'static>> {
             ))),
         ],
         "CH1" => vec![
+            // session id present but empty (cannot come out of the parser, can be constructed)
+            hs(H::ClientHello(TlsClientHelloContents::new(0x0303, &R32, Some(&[]), vec![], vec![], None))),
             hs(H::ClientHello(TlsClientHelloContents::new(
                 0x0303,
                 &R32,
